@@ -8,7 +8,9 @@ LEAK = r"^std::mem::forget$|Box::<T>::leak$|Box::<T, A>::leak$|ManuallyDrop::<T>
 
 ACCEPT_BLOCKING = (r"mpsc::SyncSender::<T>::send$|mpsc::Receiver::<T>::(recv|recv_timeout|iter)$|mpsc::Receiver<T> as std::iter::IntoIterator|"
                    r"JoinHandle::<T>::join$|std::sync::Condvar::wait|std::sync::Barrier::wait$|^std::thread::sleep$|^std::thread::park|"
-                   r"TcpStream::connect$|Read::read(_exact|_to_end|_to_string)?$|BufRead::read_(line|until)$|http::Request::from_stream")
+                   r"TcpStream::connect$|Read>?::read(_exact|_to_end|_to_string|_vectored|_buf)?$|BufRead>?::read_(line|until)$|http::Request::from_stream|"
+                   r"std::net::TcpStream::(peek|read|read_exact)$|std::net::UdpSocket::(recv|recv_from|peek|peek_from)$|BufRead>?::fill_buf$|^std::io::copy$|"
+                   r"std::net::TcpStream as std::io::Write>::(write|write_all|flush)$|process::Child::wait")
 
 DETACH_BREAKERS = r"JoinSet|AbortHandle|JoinHandle::<T>::abort$|Runtime::shutdown_(timeout|background)$|LocalSet|task::spawn_local$"
 
@@ -312,6 +314,41 @@ def tokio_run(chk, prog, cfg, fn):
         w = core.must_pass(co, in_loop, core.return_blocks(co), through_edges=cancel_edges) if in_loop else None
         chk.ob("R1.only_flag_leaves", co.path, "accept loop -> return of run() only through the cancelled branch", w is None,
                "the tokio accept loop can end although the token was not cancelled (e.g. on an accept() error): the server stops serving before any signal", path=w, cfg=cfg)
+    # R6: the accept cycle suspends only in the select (whose shutdown branch is always polled), and makes no blocking std call: a
+    # second await (`stream.peek(..).await`, a sleep, a permit) parks run() where cancellation is not looked at
+    in_loop = [a for a in accepts if a in co.reachable(co.succs(a))]
+    cyc = set()
+    for a in in_loop:
+        cyc |= {n for n in co.reachable(co.succs(a)) if a in co.reachable([n])}
+    preds = co.pred_map()
+    ny = 0
+    for y in sorted(cyc):
+        t = co.term(y)
+        if not t:
+            continue
+        if t["k"] == "call" and core.call_matches(t, ACCEPT_BLOCKING):
+            chk.ob("R6.accept_never_blocks", co.path, f"blocking call {core.short(t['callee'])} in the accept loop of the async run()", False,
+                   f"{t['callee']} blocks the runtime thread that polls the cancellation branch", where=co.where(y), cfg=cfg)
+        if t["k"] != "yield":
+            continue
+        ny += 1
+        work, seen_, polled = [y], set(), []
+        while work:
+            x = work.pop()
+            for p_ in preds[x]:
+                if p_ in seen_:
+                    continue
+                seen_.add(p_)
+                tp = co.term(p_)
+                if tp and tp["k"] == "call":
+                    polled.append(tp.get("resolved") or tp.get("callee") or "?")
+                else:
+                    work.append(p_)
+        ok = bool(polled) and all(core.re.search(r"PollFn<F> as (std::future::|futures::|core::future::)?Future>::poll$", x) for x in polled)
+        chk.ob("R6.accept_never_blocks", co.path, "the accept loop suspends only in the select that also polls the shutdown future", ok,
+               f"the loop also awaits {[core.short(x) for x in polled if 'PollFn' not in x][:3]}: while that future is pending a cancellation is not acted on and run() does not return",
+               where=co.where(y), cfg=cfg)
+    chk.floor(f"suspension points in the tokio accept loop [{cfg}]", ny, 1)
     # R7: connection tasks are detached (tokio::spawn, JoinHandle dropped): leaving run() does not abort responses in flight
     sp = co.calls_to(r"^tokio::spawn$|^tokio::task::spawn$")
     chk.floor("tokio::spawn dispatch in run()", len(sp), 1)
